@@ -12,7 +12,7 @@ open Zio
                  cfault_chunk(-1 = none) cfault_close cfault_code
                  nkill mb*nkill   njoin tid*njoin   nsav tid*nsav   main_tid
      thread = 0 nsrc out nin {mb sub}*nin      stage (plugin / loader thread: Mailbox._send_from)
-            | 1 mb sub                         saver  (Saver.save_from)
+            | 1 mb sub rechunk                 saver  (Saver.save_from)
             | 2 mb sub                         discarder
             | 3 mb sub nouts {mb ff}*nouts     divide_outputs
             | 4 mb sub relay                   the caller (relay = through Context.get_iter)
@@ -39,7 +39,7 @@ let read_thread = function
   | 0 :: nsrc :: out :: nin :: r ->
       let (ins, r') = read_n nin pair_nat r in
       (mk_thread (KStage (nat_of_int nsrc, nat_of_int out)) ins, r')
-  | 1 :: mb :: sub :: r -> (mk_thread KSaver [(nat_of_int mb, nat_of_int sub)], r)
+  | 1 :: mb :: sub :: rc :: r -> (mk_thread (KSaver (rc <> 0)) [(nat_of_int mb, nat_of_int sub)], r)
   | 2 :: mb :: sub :: r -> (mk_thread KDiscard [(nat_of_int mb, nat_of_int sub)], r)
   | 3 :: mb :: sub :: nouts :: r ->
       let (outs, r') = read_n nouts (function a :: b :: r -> ((nat_of_int a, b <> 0), r) | _ -> failwith "out") r in
